@@ -110,6 +110,14 @@ def _ops(nr, nc, ds, rng):
         ("ucat_outlets_eam_upa", lambda f: f.ucat_outlets(cs, uparea=full, method="eam_plus")),
         ("upscale_dmm_upa", lambda f: f.upscale(cs, method="dmm", uparea=full)[1]),
         ("upscale_ihu_upa", lambda f: f.upscale(cs, method="ihu", uparea=full)[1]),
+        # river statistics with a river mask, upstream and downstream (round-4 seed: the sentinel used as an index)
+        ("rivavg_mask_up", lambda f: f.subgrid_rivavg(f.ucat_outlets(cs), elv, mask=mask, direction="up")),
+        ("rivavg_mask_down", lambda f: f.subgrid_rivavg(f.ucat_outlets(cs), elv, mask=mask, direction="down")),
+        ("rivmed_mask_up", lambda f: f.subgrid_rivmed(f.ucat_outlets(cs), elv, mask=mask, direction="up")),
+        ("rivlen_mask_up", lambda f: f.subgrid_rivlen(f.ucat_outlets(cs), mask=mask, direction="up")),
+        ("rivlen_fullmask_up", lambda f: f.subgrid_rivlen(f.ucat_outlets(cs), mask=f.mask, direction="up")),
+        ("rivavg_fullmask_up", lambda f: f.subgrid_rivavg(f.ucat_outlets(cs), elv, mask=f.mask, direction="up")),
+        ("rivslp_mask", lambda f: f.subgrid_rivslp(f.ucat_outlets(cs), elv, mask=mask)),
         ("river_depth", lambda f: f.river_depth(qbankfull=full * 10, rivwth=full + 1, rivslp=full / 1000.0)),
         ("river_depth_zs", lambda f: f.river_depth(qbankfull=full * 10, rivwth=full + 1, zs=elv, rivdst=f.distnc)),
         ("classify_estuaries", lambda f: f.classify_estuaries(elv - 5, full + 1)),
